@@ -7,7 +7,18 @@ canonical number is the generator's argument, which characters are the check), s
      text (used even when some corpus number disagrees: such disagreements are (a)-failures);
   3. else the best fitting one of a fixed list of candidate projections, if it holds for the majority of the
      valid corpus numbers (the others are then (a)-failures);
-  4. else the generator is reported as 'unmodelled' in the distribution (never as a failure).
+  4. else a source hint / candidate projection that holds for the majority of the valid corpus numbers of ONE
+     length (at least two numbers): the most common length must not decide alone what the generator's argument
+     is - a generator that is right for one admissible payload length and wrong for the others is exactly what
+     (a) has to report, on the numbers of the other lengths;
+  5. else the generator is reported as 'unmodelled' in the distribution (never as a failure).
+Payload shapes: the generator is called on payloads of every length the format accepts: the lengths of the valid
+corpus numbers and the lengths found by probing (characters deleted from / inserted into the payload of a valid
+number, completed with the generated check: a length is admissible if validate() accepts such a completion);
+accepted completions seed the further synthesis, completions rejected with the module's own InvalidChecksum are
+(c)-failures.  Options: every job runs under the validate() options of VALIDATE_KWARGS and under every boolean
+option of validate() flipped (options named validate_check_digit* switch the check off by documentation and are
+only used with the value True).
 Checked relations
   (a) generator(payload(v)) == check(v)                       for every valid v (corpus + synthesised)
   (b) v with one check character replaced by any other character of the check alphabet is rejected,
@@ -22,6 +33,7 @@ Checked relations
       by.unp, si.maticna, vn.mst, at.vnr ... - are checked the other way round: no check character may
       then make the number valid).
 """
+import inspect
 import itertools
 import os
 import random
@@ -168,8 +180,10 @@ def holds(mod, p, n):
 
 
 _IDX = r'[-\d: ]+'
-_HINT_A = re.compile(r'(?P<g>calc_\w+)\((?P<p>[^()]*)\)\s*(?:!=|==)\s*number\[(?P<c>' + _IDX + r')\]')
-_HINT_B = re.compile(r'number\[(?P<c>' + _IDX + r')\]\s*(?:!=|==|not in|in)\s*(?P<g>calc_\w+)\((?P<p>[^()]*)\)')
+_ARG = r'(?P<p>[^()]*(?:\.\w+\([^()]*\))*)'       # an expression without calls, optionally followed by method calls
+_HINT_A = re.compile(r'(?P<g>calc_\w+)\(' + _ARG + r'\)\s*(?:!=|==)\s*number\[(?P<c>' + _IDX + r')\]')
+_HINT_B = re.compile(r'number\[(?P<c>' + _IDX + r')\]\s*(?:!=|==|not in|in)\s*(?P<g>calc_\w+)\(' + _ARG + r'\)')
+_PURE_SLICE = re.compile(r'^(n(?:\[[-\d: ]+\])?)((?:\.\w+\([^()]*\))+)$')
 
 
 def _parse_idx(txt):
@@ -198,6 +212,9 @@ def source_hints(mod):
                     continue
                 mode = 'in' if ' in ' in m.group(0) else 'eq'
                 pl = re.sub(r'\bnumber\b', 'n', m.group('p').strip())
+                ms = _PURE_SLICE.match(pl)
+                if ms:      # validate pads / converts the rest of the number before it calls the generator: the
+                    pl = ms.group(1)    # property is about the generator applied to the rest of the number itself
                 out.append(P(m.group('g'), pl, chk, mode=mode))
     return out
 
@@ -243,6 +260,30 @@ def build_model(mod, canon):
             if best is not None and bestfit * 2 >= len(canon):    # majority: disagreements are reported by (a)
                 projs.append(best)
                 how[g] = 'generic'
+                continue
+            # no projection fits the majority of ALL valid numbers: look at the numbers of each length separately
+            # (the largest class first).  Evidence needed: a source hint that holds for at least two numbers and more
+            # than half of the class; or one of the four plain candidates (check at the end) holding for at least
+            # three (a chance fit of a wrong projection on three numbers has probability 1/1000)
+            classes = {}
+            for n in canon:
+                classes.setdefault(len(n), []).append(n)
+            found = None
+            cands = [(h, 2) for h in hints if h['gen'] == g] + [(P(g, pl, chk), 3) for pl, chk in GENERIC[:4]]
+            for L in sorted(classes, key=lambda L: (-len(classes[L]), L)):
+                ns = classes[L]
+                if len(ns) < 2:
+                    continue
+                for c, need in cands:
+                    fit = sum(1 for n in ns if holds(mod, c, n))
+                    if fit * 2 > len(ns) and fit >= need:
+                        found = (c, L, fit, len(ns))
+                        break
+                if found:
+                    break
+            if found:
+                projs.append(found[0])
+                how[g] = 'length-class: fits %d of the %d valid corpus numbers of length %d' % (found[2], found[3], found[1])
             else:
                 how[g] = 'unmodelled: no projection fits the majority of the %d valid corpus numbers' % len(canon)
     if canon and name not in HARD:    # completion order: by position of the check characters
@@ -312,6 +353,30 @@ def mutate_payload(rng, n, check_pos):
     for i in rng.sample(free, min(k, len(free))):
         s[i] = rng.choice(_chk.char_class(n[i]))
     return ''.join(s)
+
+
+def shape_variants(n, check_pos):
+    """strings of other lengths made from the valid number n: 1-3 characters deleted from, or copies of a neighbouring
+    character / zeros inserted into, the payload at every position outside the check positions (which keep their
+    distance from the nearer end of the number)"""
+    out, seen = [], {n}
+    L = len(n)
+    free = [i for i in range(L) if i not in check_pos]
+    for i in free:
+        for k in (1, 2, 3):
+            if all(j in free for j in range(i, i + k)) and L - k >= 2:
+                v = n[:i] + n[i + k:]
+                if v not in seen:
+                    seen.add(v)
+                    out.append(v)
+            for fill in (n[i], '0'):
+                if _chk.char_class(fill) is None:
+                    continue
+                v = n[:i] + fill * k + n[i:]
+                if v not in seen:
+                    seen.add(v)
+                    out.append(v)
+    return out
 
 
 def module_job(arg):
@@ -450,24 +515,45 @@ def module_job(arg):
     # synthesis + (c)
     pool = list(seeds)
     poolset = set(pool)
-    L = None
-    for _ in range(nsynth):
-        n0 = rng.choice(pool if rng.random() < 0.5 else seeds)
+
+    def check_positions(n0):
         cpos = set()
         for p in projs:
             if applies(p, n0):
                 a, b = check_span(p, n0)
                 cpos.update(range(a, b))
-        m = mutate_payload(rng, n0, cpos)
-        if m == n0:
-            continue
+        return cpos
+
+    def admissible(comp, used):
+        """some choice of check characters makes validate() accept the payload of comp"""
+        nonlocal cases
+        pos = sorted(set(i for p in used for i in range(*check_span(p, comp))))
+        alpha = DIGITS + UPPER if len(pos) == 1 else DIGITS
+        if not pos or len(alpha) ** len(pos) > 1300:
+            return False
+        t = list(comp)
+        for combo in itertools.product(alpha, repeat=len(pos)):
+            for i, c in zip(pos, combo):
+                t[i] = c
+            cases += 1
+            if val(''.join(t))[0] == 'ok':
+                return True
+        return False
+
+    def attempt(m, n0, origin):
+        """complete the payload carrier m (a string of the shape of a number; its check positions are overwritten)
+        with the generated check character(s) and ask validate()"""
+        nonlocal cases
         comp, verdicts = complete(mod, projs, m)
         cases += 1
         if comp is None:
+            if not verdicts:
+                dist['c_no_generator_applies'] += 1
+                return
             p, g = verdicts[-1]
             if g[0] == 'exc':
                 dist['c_generator_exception'] += 1
-                continue
+                return
             # generator says: this payload has no check character -> nothing may be accepted
             dist['c_generator_no_check'] += 1
             a, b = check_span(p, m)
@@ -483,39 +569,82 @@ def module_job(arg):
                             'ValidationError: %s(%r) %s, so no check character is valid' % (p['gen'], payload_of(p, v), g[1]),
                             _chk.value_site(modname, p['gen'], 'valid-number-without-generated-check'),
                             'a: generator(payload(v)) == check(v)', kwargs=kw, projection=p))
-            continue
+            return
         dist['c_completed'] += 1
         o = val(comp)
         if len(samples) < 6:
             samples.append({'module': modname, 'relation': 'c', 'payload_from': n0, 'completed': comp,
-                            'validate': _chk.fmt_outcome(o)})
+                            'validate': _chk.fmt_outcome(o), 'origin': origin})
         if o[0] == 'ok':
             nontrivial.add(('c', comp))
             dist['c_accepted'] += 1
             if o[1] == comp and comp not in poolset and all(holds(mod, p, comp) for p in projs if applies(p, comp)):
                 poolset.add(comp)
                 pool.append(comp)
+                if len(comp) not in lengths:
+                    lengths.add(len(comp))
+                    dist['lengths_found_by_probing'] = dist.get('lengths_found_by_probing', 0) + 1
         elif o[0] == 'verr' and o[1] == 'InvalidChecksum':
             nontrivial.add(('c', comp))
             if not _own_checksum(modname, o):
                 dist['c_rejected_checksum_other_module'] += 1
-                continue
+                return
             # every applicable generator agrees with the completed number, yet the module says checksum error
             if not all(holds(mod, p, comp) for p in projs if applies(p, comp)):
                 dist['c_rejected_other_validation_error'] += 1    # guard changed by completion: not our payload any more
-                continue
+                return
             used = [p for p in projs if applies(p, comp)]
             if not used:
                 dist['c_no_generator_applies'] += 1
-                continue
+                return
+            cfn = getattr(mod, 'compact', None)
+            if cfn is not None and _chk.call(cfn, comp)[:2] != ('ok', comp):
+                # the projections are defined on canonical numbers; this string is re-shaped by compact() before
+                # the check (e.g. a prefix is added), so its payload is not the one the generator was given
+                dist['c_not_canonical'] = dist.get('c_not_canonical', 0) + 1
+                return
+            if len(comp) not in lengths:
+                # a payload of a length that no valid number seen so far has: it is a well-formed payload only if
+                # SOME completion validates (otherwise the checksum error is just the module's way of rejecting
+                # the length)
+                if bad_lengths.get(len(comp), 0) >= 4 or not admissible(comp, used):
+                    bad_lengths[len(comp)] = bad_lengths.get(len(comp), 0) + 1
+                    dist['c_probed_length_not_admissible'] = dist.get('c_probed_length_not_admissible', 0) + 1
+                    return
+                lengths.add(len(comp))
+                dist['lengths_found_by_probing'] = dist.get('lengths_found_by_probing', 0) + 1
             col.add(_chk.make_case(
                 modname, 'validate', [comp], _chk.fmt_outcome(o),
                 'accepted or a non-checksum ValidationError: check generated by %s' % ', '.join(p['gen'] for p in used),
-                _chk.site(o), 'c: payload + generated check is never a checksum error', kwargs=kw, projections=used))
+                _chk.site(o), 'c: payload + generated check is never a checksum error', kwargs=kw, projections=used,
+                origin=origin))
         elif o[0] == 'verr':
             dist['c_rejected_other_validation_error'] += 1
         else:
             dist['c_generator_exception'] += 1
+
+    # payload shapes: every length the format accepts.  Known lengths come from the corpus; the others are probed:
+    # characters deleted from / inserted into the payload of a valid number (at every payload position, 1-3
+    # characters), completed with the generated check; accepted completions join the pool and seed the random synthesis
+    lengths = set(len(n) for n in seeds)
+    bad_lengths = {}
+    per_length = {}
+    for n in seeds + [x for x in common.extremal_numbers(modname) if val(x)[:2] == ('ok', x)]:
+        per_length.setdefault(len(n), [])
+        if len(per_length[len(n)]) < (2 if tier == 'quick' else 6):
+            per_length[len(n)].append(n)
+    for L in sorted(per_length):
+        for n0 in per_length[L]:
+            for m in shape_variants(n0, check_positions(n0)):
+                dist['shape_probes'] = dist.get('shape_probes', 0) + 1
+                attempt(m, n0, 'shape probe')
+    info['lengths'] = sorted(lengths)
+    for _ in range(nsynth):
+        n0 = rng.choice(pool if rng.random() < 0.5 else seeds)
+        m = mutate_payload(rng, n0, check_positions(n0))
+        if m == n0:
+            continue
+        attempt(m, n0, 'random payload')
     # (a) on synthesised numbers, (b) on everything
     alphabets = {p['gen']: check_alphabet(mod, p, pool, rng) for p in projs}
     info['check_alphabet'] = {g: ('digits' if a == DIGITS else 'digits+letters' + a[36:]) for g, a in alphabets.items()}
@@ -546,10 +675,30 @@ def target_modules():
     return out
 
 
+def validate_option_sets(name):
+    """the validate() options a module is checked under: the VALIDATE_KWARGS table, else the defaults and every
+    boolean option flipped (one at a time).  Options named validate_check_digit* are documented to switch the check
+    off: they are never used with the value False."""
+    if name in VALIDATE_KWARGS:
+        return VALIDATE_KWARGS[name]
+    out = [{}]
+    try:
+        ps = list(inspect.signature(common.module(name).validate).parameters.values())[1:]
+    except (TypeError, ValueError):
+        return out
+    for p in ps:
+        if isinstance(p.default, bool):
+            v = not p.default
+            if p.name.startswith('validate_check_digit') and v is False:
+                continue
+            out.append({p.name: v})
+    return out
+
+
 def search(seed, tier):
     jobs = []
     for name in target_modules():
-        for kw in VALIDATE_KWARGS.get(name, [{}]):
+        for kw in validate_option_sets(name):
             jobs.append((name, kw, seed, tier))
     common.corpus()    # build the cache before forking
     results = _chk.pmap(module_job, jobs)
